@@ -15,7 +15,7 @@ from .types import (BOOL, FLOAT, INT, NONE, STR, T, TEnum, TFloat, TInt, TMap, T
 from .values import (EngineError, V, coerce, default, f_wf, fresh, fresh_name, mk_bool, opt_isnone, opt_val)
 
 MAX_PATHS = 6000
-FEAS_TIMEOUT_MS = 1500
+FEAS_TIMEOUT_MS = int(__import__("os").environ.get("PYVC_FEAS_MS", "350"))
 
 BUILTIN_EXC_BASES = {}
 
@@ -281,7 +281,23 @@ class EngineBase:
         st = st.assume(z3.And(c >= 0,
                               z3.Implies(c == 0, z3.ForAll([x], z3.Not(z3.Select(setv.zs[0], x)))),
                               z3.Implies(c != 0, z3.Select(setv.zs[0], w))))
-        return st, c
+        # finite-set facts relating this cardinality to the ones already mentioned on the path (A-CARD):
+        # S1 subset of S2 => |S1| <= |S2|, and strictly smaller when some element of S2 is missing from S1
+        seen = st.ghost.get("$cards", ())
+        facts = []
+        for (key2, arr2, c2) in seen[-6:]:
+            if key2 != key or arr2.eq(setv.zs[0]):
+                continue
+            for (a1, k1), (a2, k2) in (((setv.zs[0], c), (arr2, c2)), ((arr2, c2), (setv.zs[0], c))):
+                y = z3.Const(fresh_name("y"), so)
+                sub = z3.ForAll([y], z3.Implies(z3.Select(a1, y), z3.Select(a2, y)))
+                z = z3.Const(fresh_name("z"), so)
+                facts.append(z3.Implies(sub, k1 <= k2))
+                facts.append(z3.Implies(z3.And(sub, z3.Exists([z], z3.And(z3.Select(a2, z), z3.Not(z3.Select(a1, z))))),
+                                        k1 < k2))
+        s2 = st.assume(z3.And(*facts)) if facts else st.fork()
+        s2.ghost["$cards"] = tuple(seen) + ((key, setv.zs[0], c),)
+        return s2, c
 
     def def_array(self, st: State, x, body, base="def"):
         """A fresh array A with the defining axiom forall x. A[x] == body (instead of a lambda term)."""
